@@ -111,7 +111,7 @@ Definition negotiate (sA cA sE cE : lvl) (sm cm : list meth) (sc cc : list ciph)
 Definition bit (m : meth) : Z :=
   match m with
   | mNONE => 0 | mCTB => 2 | mFS => 4 | mKRB => 64 | mSSL => 256 | mPW => 512
-  | mTOK => 2048 | mSCI => 4096 | mIDT => 4096 | mX _ => 0
+  | mTOK => 2048 | mIDT => 2048 | mSCI => 4096 | mX _ => 0
   end.
 
 (* None is the empty string result *)
@@ -149,6 +149,10 @@ Inductive lres :=
 Definition cons_round (r : Z * Z) (x : list (Z * Z) * lres) : list (Z * Z) * lres :=
   (r :: fst x, snd x).
 
+(* Two names can share one bit (TOKEN and IDTOKENS, HTCondor's CAUTH_TOKEN): the
+   client resolves the bit the server answers to the method it offered under it. *)
+Definition offered_under (cms : list meth) (r : Z) : option meth := find (fun m => bit m =? r) cms.
+
 (* [aok m]: the sub-protocol of method m succeeds between these two peers.
    A round is (bitmask sent by the client, bit answered by the server); the
    client's final "giving up" zero is recorded as (0, -1). *)
@@ -164,10 +168,13 @@ Fixpoint auth_loop (fuel : nat) (aok : meth -> bool) (sm cms : list meth) (avail
                let r := bit ms in
                match of_bit r with
                | None => cons_round (avail, r) (auth_loop f aok sm cms (Z.land avail (Z.lnot r)))
-               | Some mc =>
-                   if negb (mem mc cms) then ([(avail, r)], LRejected)
-                   else if meth_eqb mc ms && aok ms then ([(avail, r)], LOk ms)
-                   else cons_round (avail, r) (auth_loop f aok sm cms (Z.land avail (Z.lnot (bit mc))))
+               | Some _ =>
+                   match offered_under cms r with
+                   | None => ([(avail, r)], LRejected)
+                   | Some mc =>
+                       if aok ms && aok mc then ([(avail, r)], LOk ms)
+                       else cons_round (avail, r) (auth_loop f aok sm cms (Z.land avail (Z.lnot (bit mc))))
+                   end
                end
            end
   end.
@@ -270,7 +277,9 @@ Definition honest (aok : meth -> bool) (Cl Sv : policy) (sid : N) : hout :=
   | AFail ce se => HFail ce se rounds
   | AOk ca sa ce se =>
       HOk (mkOk rounds ran ca sa ce se
-             (match ran with Some x => x | None => m' end)
+             (match ran with
+              | Some x => match offered_under cms (bit x) with Some mc => mc | None => x end
+              | None => m' end)
              (match ran with Some x => x | None => m end)
              ce se
              (if ce then Some (KDH (p_pub Cl) (p_pub Sv)) else None)
